@@ -544,7 +544,7 @@ pub fn run(ctx: &mut Ctx) {
 
         // ================= verify side: reference-made signatures
         let version: u8 = if k.v6 { 6 } else { 4 };
-        let nver = if slow { ctx.qt(14, 7 * docs.len()) } else { ctx.qt(105, 7 * docs.len() * 6) };
+        let nver = if slow { ctx.qt(14, 7 * docs.len()) } else { ctx.qt(420, 7 * docs.len() * 6) };
         for vi in 0..nver {
             if !ctx.mine() {
                 continue;
